@@ -55,6 +55,38 @@ def shard_fn(sh):
     return st
 
 
+def deep_laws(sh):
+    """values with 4..12 atoms (synthetic shapes + every shipped category with >= 4 atoms) against each of their single-point
+    neighbours and against an equal value built from scratch"""
+    tier, lang, lo, hi = sh
+    st = core.Stats()
+    pool = K.deep_pool(lang, tier == 'thorough')[lo:hi]
+    for c in pool:
+        tc, kc, sc = K.text(c), K.key(c), K.skel(c)
+        twin = K.rebuild(c)
+        st.count('deep_values')
+        if not (c == twin) or c != twin or hash(c) != hash(twin) or twin not in {c} or c not in {twin: 1} or not (c == tc) or str(c) != tc:
+            st.violation('deep/equal', f'{tc}: an equal value built from scratch is not interchangeable (eq {c == twin}, hash equal {hash(c) == hash(twin)}, str {str(c)!r})', a=tc, b=tc, engine='deep')
+        for d in K.neighbours(c):
+            td = K.text(d)
+            st.count('pairs')
+            st.count('deep_pairs')
+            if K.key(d) == kc:
+                raise boot.HarnessError(f'neighbour generator produced an equal value: {tc}')
+            if c == d or d == c or not (c != d):
+                st.violation('deep/eq', f'{tc} == {td} is True, structures differ at one point', a=tc, b=td, engine='deep')
+            if len({c, d}) != 2 or d in {c: 1} or c in {d}:
+                st.violation('deep/set', f'a set / dict does not keep {tc} and {td} apart', a=tc, b=td, engine='deep')
+            x, y = bool(c ^ d), bool(d ^ c)
+            want = sc == K.skel(d)
+            if x != want or y != want:
+                st.violation('deep/xor', f'{tc} ^ {td} is {x} / {y}, skeletons are {"equal" if want else "different"}', a=tc, b=td, engine='deep')
+            if c == td or d == tc:
+                st.violation('deep/streq', f'{tc} compares equal to the text of {td}', a=tc, b=td, engine='deep')
+        st.observe(tc, hash(c) == hash(twin))
+    return st
+
+
 def unary_laws(tier):
     """per-value laws: dict/set membership through a re-built equal value, str, string decorations, clear_features"""
     st = core.Stats()
@@ -137,13 +169,19 @@ def check(tier, seed):
     step = max(1, n // 128)
     shards = core.rotate([(tier, lo, min(n, lo + step)) for lo in range(0, n, step)], seed)
     st = core.pmap(shard_fn, shards)
+    dsh = []
+    for lang in ('en', 'ja'):
+        m = len(K.deep_pool(lang, tier == 'thorough'))
+        dsh += [(tier, lang, lo, min(m, lo + 40)) for lo in range(0, m, 40)]
+    st.merge(core.pmap(deep_laws, dsh))
     st.merge(unary_laws(tier))
     st.sample(dict(a=K.text(U[5]), b=K.text(U[n // 2]), eq=U[5] == U[n // 2], xor=bool(U[5] ^ U[n // 2])))
     return core.finish(PROP, tier, seed, 'exploration', st, t0,
                        rule=(f'all ordered pairs of a size-ordered prefix of U(3) over both feature systems and the slashes / \\ | ({n} values: all of U(2) plus the first size-3 values): '
                              '== iff identical structure (independent comparator on dataclass fields), != consistent, equal => equal hash, ^ iff equal skeleton, c == s iff s is the canonical text; '
                              'per value: dict/set hits through a separately built equal value, str == canonical text, non-canonical texts do not compare equal, clear_features over every '
-                             'subset of the feature names in the value (+ an absent name): removes exactly those, idempotent, argument untouched. non-trivial = pairs with equal skeleton'),
+                             'subset of the feature names in the value (+ an absent name): removes exactly those, idempotent, argument untouched. Deep values: synthetic spines / zig-zags / balanced shapes with 4..12 atoms and every shipped '
+                             'category with >= 4 atoms, each against every single-point neighbour (one slash, one atom, one feature changed) and against an equal value built from scratch. non-trivial = pairs with equal skeleton'),
                        nontrivial=st.c['equal_pairs'] + st.c['clear_cases'], evaluations=st.c['pairs'] + st.c['clear_cases'] + st.c['values'],
                        extra=dict(values=n), assumptions=['independent comparator mc/cats.py::key'])
 
@@ -189,7 +227,15 @@ def replay(rec):
     print(rec['key'], '|', rec['what'])
     key = rec['key'].split('/')[0]
     bad = False
-    if key in ('eq', 'ne', 'hash', 'xor', 'streq') and isinstance(b, str) and b:
+    if key == 'deep':
+        bv = rebuild_from_text(b)
+        same = K.key(a) == K.key(bv)
+        twin = rebuild_from_text(rec['a'])
+        obs = dict(eq=(a == bv), set_size=len({a, bv}), xor=bool(a ^ bv), streq=(a == b), twin_eq=(a == twin), twin_hash=(hash(a) == hash(twin)))
+        exp = dict(eq=same, set_size=1 if same else 2, xor=K.skel(a) == K.skel(bv), streq=K.text(a) == b, twin_eq=True, twin_hash=True)
+        print('observed', obs, 'expected', exp)
+        bad = obs != exp
+    elif key in ('eq', 'ne', 'hash', 'xor', 'streq') and isinstance(b, str) and b:
         bv = rebuild_from_text(b)
         same = K.key(a) == K.key(bv)
         obs = dict(eq=(a == bv), ne=(a != bv), hash_equal=(hash(a) == hash(bv)), xor=bool(a ^ bv), streq=(a == b))
